@@ -1,10 +1,13 @@
 ----------------------------- MODULE EvaluatorJudge -----------------------------
 (* observations of harness/evaluator.cxx
    arith : per variant (min, ws, full) the outcome "value" | "throw", the nearest integer of value * den and
-           tightness; derivative with respect to x and y likewise (times ddx, ddy; 0 = not judged exactly)
+           tightness; derivative with respect to x and y likewise (times ddx, ddy; 0 = not judged exactly: an exponent
+           depends on the variable; then dx.fd / dy.fd in {"match", "mismatch", "na"} is the comparison of the derivative
+           with a Richardson finite difference of the evaluator's own values)
    fn    : expect / got in {"value", "throw"} (expect from the C library function of the documented name on the
            same argument), agree = within 4 ulp; dgot in {"value", "throw"}, dclass in {"match", "mismatch", "na"}
-           (derivative against a Richardson finite difference of the evaluator's own values)
+           (derivative against a Richardson finite difference of the evaluator's own values), dgoty / dclassy likewise
+           with respect to y; fnn = composition f(g(arg)) + arg of two functions, same fields
    reject: got *)
 EXTENDS Evaluator, Judge
 Check(name, b) == IF b THEN {} ELSE {name}
@@ -12,10 +15,13 @@ Times(r, den) == IF den % r[2] = 0 THEN r[1] * (den \div r[2]) ELSE -999999
 FailsArith(o) ==
   LET v == Val(o.tree)[2] IN
      UNION {Check("value:" \o k, o[k].got = "value" /\ o[k].tight /\ o[k].q = Times(v, o.den)) : k \in {"min", "ws", "full"}}
-     \cup (IF o.ddx = 0 THEN {} ELSE Check("derivative", o.dx.got = "value" /\ o.dx.tight /\ o.dx.q = Times(Val(D(o.tree, "x"))[2], o.ddx)))
-     \cup (IF o.ddy = 0 THEN {} ELSE Check("derivative", o.dy.got = "value" /\ o.dy.tight /\ o.dy.q = Times(Val(D(o.tree, "y"))[2], o.ddy)))
+     \cup (IF o.ddx = 0 THEN Check("derivative:finite-difference", o.dx.got = "throw" \/ o.dx.fd \in {"match", "na"})
+           ELSE Check("derivative", o.dx.got = "value" /\ o.dx.tight /\ o.dx.q = Times(Val(D(o.tree, "x"))[2], o.ddx)))
+     \cup (IF o.ddy = 0 THEN Check("derivative:finite-difference", o.dy.got = "throw" \/ o.dy.fd \in {"match", "na"})
+           ELSE Check("derivative", o.dy.got = "value" /\ o.dy.tight /\ o.dy.q = Times(Val(D(o.tree, "y"))[2], o.ddy)))
 FailsFn(o) == Check("function:" \o o.f, o.got = o.expect /\ (o.got = "throw" \/ o.agree))
               \cup Check("derivative:" \o o.f, o.got = "throw" \/ o.dgot = "throw" \/ o.dclass \in {"match", "na"})
+              \cup Check("derivative:" \o o.f, o.got = "throw" \/ o.dgoty = "throw" \/ o.dclassy \in {"match", "na"})
 Fails(o) == IF o.kind = "arith" THEN FailsArith(o)
             ELSE IF o.kind = "reject" THEN Check("accepts-malformed", o.got = "throw")
             ELSE IF o.kind = "silent" THEN Check("silent-different-parse", o.got = "throw" \/ (o.tight /\ o.q = o.num))
